@@ -254,13 +254,15 @@ def gen_parse_table():
 
     # --- parse_rfc2822
     b = fn_body(src, 'parse_rfc2822')
-    nums = re.findall(r'parsed\.set_(\w+)\(try_consume!\(scan::number\((\w+), (\d+), (\d+)\)\)\)\?;', b)
-    want = [('day', 's'), ('hour', 's'), ('minute', 's'), ('second', 's_')]
-    if [(n[0], n[1]) for n in nums] != want:
+    nums = re.findall(r'parsed\.set_(\w+)\(try_consume!\(scan::number\(([\w.()]+), (\d+), (\d+)\)\)\)\?;', b)
+    want = [('day', ('s',)), ('hour', ('s',)), ('minute', ('s',)), ('second', ('s_', 's_.trim_start()'))]
+    if [n[0] for n in nums] != [w[0] for w in want] or any(n[1] not in w[1] for n, w in zip(nums, want)):
         raise TranslateError('parse_rfc2822: number fields changed: %r' % nums)
     out += '(* parse_rfc2822: (min, max) digits of day, hour, minute, second; year *)\n'
     for n in nums:
         out += 'Definition P2822_%s : Z * Z := (%s, %s).\n' % (n[0].upper(), n[2], n[3])
+    out += '(* the seconds are scanned from `s_.trim_start()` (true) or from `s_` (false) *)\n'
+    out += 'Definition P2822_SECOND_TRIM : bool := %s.\n' % blit(nums[3][1] == 's_.trim_start()')
     m = re.search(r'let mut year = try_consume!\(scan::number\(s, (\d+), usize::MAX\)\);', b)
     if not m:
         raise TranslateError('parse_rfc2822: year number not found')
